@@ -46,9 +46,9 @@ else
   allok=yes
   for fp in $failed; do
     ok=no
-    for try in 1 2 3 4 5; do
-      # load-flaky network tests: wait (up to 15 min) for the machine to calm down before a retry
-      for w in $(seq 1 90); do l=$(cut -d. -f1 /proc/loadavg); [ "$l" -lt 14 ] && break; sleep 10; done
+    for try in 1 2 3; do
+      # load-flaky network tests: wait (up to 3 min) for the machine to calm down before a retry
+      for w in $(seq 1 18); do l=$(cut -d. -f1 /proc/loadavg); [ "$l" -lt 14 ] && break; sleep 10; done
       if ( cd "$wt" && timeout 900 go test -count=1 -skip 'Seeded|TestWebAgentConnector' "$fp" ) > "$out.tests.retry" 2>&1; then ok=yes; break; fi
     done
     echo "retry $fp: $ok" >> "$out"
